@@ -35,6 +35,10 @@ pub enum Via {
     PoolBare,
     /// ConnectorLayer + RequestExecutor only, over the URI-agnostic transport
     ConnectorBare,
+    /// ConnectorLayer + RequestExecutor over the real TcpTransport with a resolver that always
+    /// fails: the TCP transport's own reading of the URI (host, port, scheme defaults) without
+    /// a socket ever being opened
+    TcpNoDns,
 }
 
 #[derive(Clone, Debug, Serialize, Deserialize)]
@@ -53,7 +57,12 @@ pub struct GrammarSim;
 
 const VERSIONS: [&str; 5] = ["HTTP/0.9", "HTTP/1.0", "HTTP/1.1", "HTTP/2.0", "HTTP/3.0"];
 const METHODS: [&str; 9] = ["GET", "POST", "HEAD", "CONNECT", "OPTIONS", "TRACE", "PATCH", "PURGE", "M-SEARCH"];
-const URIS: [&str; 34] = [
+const URIS: [&str; 38] = [
+    // ports http::Uri accepts as text: out of range, empty, zero
+    "http://a.test:99999/",
+    "http://a.test:/r/1/x",
+    "https://a.test:0/",
+    "https://[::1]:65536/",
     "http://a.test/r/1/x",
     "http://a.test",
     "http://a.test/",
@@ -137,6 +146,23 @@ fn bare_connector_service(net: &Network, tls: bool, fixed: Option<String>) -> Ex
         .service(RequestExecutor::new())
 }
 
+fn tcp_connector_service(tls: bool) -> ExecSvc {
+    use hyperdriver::client::conn::connector::ConnectorLayer;
+    use hyperdriver::client::conn::dns::SocketAddrs;
+    use hyperdriver::client::conn::protocol::auto::HttpConnectionBuilder;
+    use hyperdriver::client::conn::transport::tcp::TcpTransport;
+    use hyperdriver::client::conn::transport::TransportExt;
+    use hyperdriver::service::{IncomingResponseLayer, RequestExecutor};
+    let resolver = tower::service_fn(|_host: Box<str>| async move { Err::<SocketAddrs, std::io::Error>(std::io::Error::new(std::io::ErrorKind::Other, "no name service in the simulator")) });
+    let t: TcpTransport<_, hyperdriver::stream::tcp::TcpStream> = TcpTransport::builder().with_resolver(resolver).build();
+    let transport = if tls { t.with_tls(tlsfix::client_config(&["h2", "http/1.1"])) } else { t.without_tls() };
+    tower::ServiceBuilder::new()
+        .layer(hyperdriver::service::SharedService::layer())
+        .layer(IncomingResponseLayer::new())
+        .layer(ConnectorLayer::new(transport, HttpConnectionBuilder::<ChunkBody>::default()))
+        .service(RequestExecutor::new())
+}
+
 fn bare_pool_service(net: &Network, tls: bool) -> ExecSvc {
     use hyperdriver::client::conn::protocol::auto::HttpConnectionBuilder;
     use hyperdriver::client::conn::transport::TransportExt;
@@ -156,24 +182,24 @@ impl Scenario for GrammarSim {
 
     fn info(&self) -> ScenarioInfo {
         ScenarioInfo {
-            rule: "one request per run: every http::Version constant x methods (standard, extension, CONNECT) x URI forms (absolute with names, IPv4, bracketed IPv6, odd-but-legal reg-names, userinfo, explicit/edge ports; origin-form; asterisk; authority-form) x optional pre-set headers x body, through Client (with and without pool), ConnectorService routed by URI and ConnectorService over a URI-agnostic transport, plain and TLS, against real hyperdriver servers for the routable authorities. The full cross product version x method x URI x via x tls is enumerated; random cases add headers and bodies. Oracle: no panic anywhere (caller's task or library-spawned tasks; the build has debug assertions on, like the repository's own test profile) and the call resolves within a minute of virtual time. Non-trivial: anything but a plain GET of a routable absolute http URI with version 1.1 or 2; distinct = the case tuple.".into(),
+            rule: "one request per run: every http::Version constant x methods (standard, extension, CONNECT) x URI forms (absolute with names, IPv4, bracketed IPv6, odd-but-legal reg-names, userinfo, explicit/edge ports; origin-form; asterisk; authority-form) x optional pre-set headers x body, through Client (with and without pool), ConnectorService routed by URI, ConnectorService over a URI-agnostic transport and ConnectorService over the real TcpTransport (resolver that always fails), plain and TLS, against real hyperdriver servers for the routable authorities. The full cross product version x method x URI x via x tls is enumerated; random cases add headers and bodies. Oracle: no panic anywhere (caller's task or library-spawned tasks; the build has debug assertions on, like the repository's own test profile) and the call resolves within a minute of virtual time. Non-trivial: anything but a plain GET of a routable absolute http URI with version 1.1 or 2; distinct = the case tuple.".into(),
             real: vec![
                 "client::Builder::build_service stack, ConnectionPoolService (pooled and detached), ConnectorService, SetHostHeader / Http2Checks / Http1Checks / RequestExecutor, HttpConnectionBuilder, TlsTransport, UriKey",
                 "real hyperdriver servers behind the routable authorities",
             ],
-            stub: vec!["network (SimNet)", "TcpTransport::get_host_and_port (kernel sockets: not run)"],
+            stub: vec!["network (SimNet)", "name resolution below TcpTransport (a resolver that always fails: TcpTransport reads the URI - get_host_and_port - and stops there; no socket is opened)"],
             assumptions: vec!["a request http::Request::builder() refuses to construct is not a well-typed request and is skipped"],
         }
     }
 
     fn num_cases(&self, tier: Tier) -> (u64, u64) {
-        let e = (VERSIONS.len() * METHODS.len() * URIS.len() * 6 * 2) as u64;
+        let e = (VERSIONS.len() * METHODS.len() * URIS.len() * 7 * 2) as u64;
         (e, if tier == Tier::Quick { 2000 } else { 200_000 })
     }
 
     fn case(&self, index: u64, seed: u64, _tier: Tier) -> GrammarCase {
-        let total = (VERSIONS.len() * METHODS.len() * URIS.len() * 6 * 2) as u64;
-        let vias = [Via::Client, Via::ClientNoPool, Via::Connector, Via::ConnectorFixed, Via::PoolBare, Via::ConnectorBare];
+        let total = (VERSIONS.len() * METHODS.len() * URIS.len() * 7 * 2) as u64;
+        let vias = [Via::Client, Via::ClientNoPool, Via::Connector, Via::ConnectorFixed, Via::PoolBare, Via::ConnectorBare, Via::TcpNoDns];
         if index < total {
             let mut i = index;
             let v = (i % VERSIONS.len() as u64) as usize;
@@ -182,8 +208,8 @@ impl Scenario for GrammarSim {
             i /= METHODS.len() as u64;
             let u = (i % URIS.len() as u64) as usize;
             i /= URIS.len() as u64;
-            let via = vias[(i % 6) as usize];
-            i /= 6;
+            let via = vias[(i % 7) as usize];
+            i /= 7;
             return GrammarCase { seed: 5, via, tls: i % 2 == 1, version: VERSIONS[v].into(), method: METHODS[m].into(), uri: URIS[u].into(), headers: vec![], body_len: 0 };
         }
         let mut r = Rng::keyed(seed, "grammar");
@@ -269,6 +295,7 @@ impl Scenario for GrammarSim {
                         }
                         Via::Connector => connector_service(&net, case.tls, None).oneshot(req).await,
                         Via::PoolBare => bare_pool_service(&net, case.tls).oneshot(req).await,
+                        Via::TcpNoDns => tcp_connector_service(case.tls).oneshot(req).await,
                         Via::ConnectorBare => {
                             let fixed = if case.tls { "https://a.test" } else { "http://a.test" };
                             bare_connector_service(&net, case.tls, Some(fixed.to_string())).oneshot(req).await
